@@ -11,6 +11,7 @@ import TrVerif.Props.C03
 import TrVerif.Props.Attained
 import TrVerif.Props.NoExc
 import TrVerif.Props.C10e
+import TrVerif.Props.C07Fwd2
 namespace Tr
 
 def nvDs : Dataset :=
